@@ -24,7 +24,8 @@ def shard(spec) -> Acc:
     for sample in total["samples"][:1]:
         if sample["choices"]:
             acc.samples.append(sample)
-    acc.count("scenarios")
+    if spec.get("part", (0, 1))[0] == 0:
+        acc.count("scenarios")
     acc.count("diverged-prefixes", total["diverged"])
     acc.count("unstable-violations", len(total["unstable"]))
     acc.count("forks", total["forks"])
@@ -41,6 +42,18 @@ def shard(spec) -> Acc:
         acc.violation(violation["key"], violation["what"],
                       {"spec": spec, "choices": violation["choices"]})
     return acc
+
+
+def split(spec, parts):
+    """The same scenario as ``parts`` shards, each exploring a share of the first deviations"""
+    import copy
+
+    out = []
+    for part in range(parts):
+        piece = copy.deepcopy(spec)
+        piece["part"] = (part, parts)
+        out.append(piece)
+    return out
 
 
 def line_variants(specs, select, bound=1, budget=20000):
